@@ -9,7 +9,7 @@
 From Coq Require Import List ZArith NArith Bool String Permutation.
 Import ListNotations.
 From DD Require Import Base.PyStr Base.Value Hash.HashModel Hash.Equiv
-  Hash.HashProofsBase Hash.HashProofsC06 Hash.HashProofsMemo.
+  Hash.HashProofsBase Hash.HashProofsC06 Hash.HashProofsC07 Hash.HashProofsMemo.
 
 (* Order-insensitive modes (ignore_iterable_order=True: nested-set and
    nested-multiset mode), every option record, every hasher, all values. *)
@@ -28,6 +28,18 @@ Theorem C06_ordered_set_refuted :
               hash_pure hexhash ordered_mode a <> hash_pure hexhash ordered_mode b.
 Proof. exact ordered_set_refuted. Qed.
 Print Assumptions C06_ordered_set_refuted.
+
+(* the same for every hasher that is injective with non-empty separator-free outputs (e.g. SHA-256) *)
+Theorem C06_ordered_set_any_hasher_refuted :
+  forall (H : pystr -> pystr),
+  (forall s, s <> [] -> sepfree (H s)) -> (forall s t, H s = H t -> s = t) ->
+  eqv ordered_mode (VSet [AInt 0; AInt 8]) (VSet [AInt 8; AInt 0]) /\
+  hash_pure H ordered_mode (VSet [AInt 0; AInt 8]) <> hash_pure H ordered_mode (VSet [AInt 8; AInt 0]).
+Proof.
+  intros H H_tok H_inj. split; [constructor; apply perm_swap|].
+  exact (ordered_set_refuted_any H H_tok H_inj).
+Qed.
+Print Assumptions C06_ordered_set_any_hasher_refuted.
 
 (* ... and holds for every mode when sets / frozensets have at most one member. *)
 Theorem C06_eqv_hash_ordered_partial :
